@@ -352,6 +352,36 @@ func suiteC12(r *Run) {
 			}
 		}
 	}
+	// ---------------- registration interleaved with requests: a service registered on the Server after it
+	// has already served requests resolves like any other
+	for iter := 0; iter < r.Budget(6, 60); iter++ {
+		base := []string{"/", "/rpc/", "/a/b/"}[iter%3]
+		var hran []string
+		hs := httpgrpc.NewServer(httpgrpc.WithBasePath(base))
+		tr := newMemTransport(hs)
+		hch := &httpgrpc.Channel{Transport: tr, BaseURL: &url.URL{Scheme: "http", Host: "mem.test", Path: base}}
+		call := func(name string) (error, string) {
+			hran = hran[:0]
+			err := hch.Invoke(context.Background(), name, &Msg{}, &Msg{})
+			return err, strings.Join(hran, "+")
+		}
+		a := synthSvc{name: "pkg.First", unary: []string{"Get"}}
+		b := synthSvc{name: "pkg.Second", unary: []string{"Get", "Put"}}
+		hs.RegisterService(a.desc(&hran), synthImpl{})
+		warm := []string{"/pkg.First/Get", "/pkg.Nope/Get", "/pkg.Second/Get"}[iter%3] // a hit, a miss, a miss on the later name
+		call(warm)
+		hs.RegisterService(b.desc(&hran), synthImpl{})
+		for _, name := range []string{"/pkg.Second/Get", "/pkg.Second/Put", "/pkg.First/Get"} {
+			err, got := call(name)
+			want := "U:" + name[1:]
+			c := map[string]interface{}{"transport": "http", "via": "server", "base": base, "sequence": "register pkg.First; request " + warm + "; register pkg.Second; request " + name}
+			r.Eval(fmt.Sprint("http-register-late", base, warm, name), true)
+			r.Count("http:register-after-first-request")
+			if got != want {
+				r.Violate("http/resolve/late-registration-not-routed", "runs the handler registered for that service and method", sprintf("%s after a late registration: ran %q, expected %q (err %v)", name, got, want, err), c, got)
+			}
+		}
+	}
 	_ = grpchantesting.MetadataNew
 }
 
